@@ -4,7 +4,7 @@ INVARIANTS Emit Law Necessity
 CHECK_DEADLOCK FALSE
 CONSTANTS
   Family = "pair"
-  Delims = {44}
-  QEs = {"dd", "db", "ss"}
+  Delims = {44, 9}
+  QEs = {"dd", "db"}
   Lds = {"lf", "cr"}
   Big = FALSE
